@@ -111,6 +111,23 @@ func c06Plan(tier string) []PlanItem {
 	s.HoldWatch = true
 	s.LatencyBound = 0
 	add(s, d)
+	// the candidate monitors its connection and went through a disconnect / reconnect as a
+	// follower before the leader crashes (vacancy by expiry, nothing to notify) or shuts down
+	for _, crash := range []bool{true, false} {
+		var c *Scenario
+		if crash {
+			c = scnFailoverCrash("failover-crash2-K1-candidate-reconnected", K1, "A", "B")
+		} else {
+			c = scnFailoverDel("failover-del2-K1-candidate-reconnected-dropall", K1, "A", "B")
+			c.DropAll = true
+		}
+		c.Insts[1].Monitored = true
+		c.Script = append(c.Script,
+			Item{At: 1*c.H + 21*ms, Actor: "connB", Do: "disconnect", Inst: "B", Fixed: true},
+			Item{At: 1*c.H + 63*ms, Actor: "connB", Do: "reconnect", Inst: "B", Fixed: true})
+		c.LatencyBound = 0
+		add(c, d)
+	}
 	// the candidate's watch channel closes before the vacancy
 	s = scnFailoverDel("failover-del2-K1-watch-closed", K1, "A", "B")
 	s.Script = append(s.Script, Item{At: 1*s.H + 11*ms, Actor: "chaos", Do: "closewatch", Inst: "B"})
